@@ -54,6 +54,7 @@ type Profile struct {
 	HoldSnapshot                                                                 float64 // a node that has just accepted a snapshot is stalled (keeps the install pending) with this probability
 	SnapChaos                                                                    float64 // MsgSnap is delayed by election timeouts / duplicated with this probability
 	PNodeAPI                                                                     float64 // E3 nodesim: nodes are driven through the channel-based raft.Node
+	StoreSim                                                                     bool    // E4 storesim: the in-memory storage on its own
 	Follower                                                                     bool    // E2 followersim: one real node (learner) among abstract peers
 	PWideIDs                                                                     float64 // node ids spread over the whole uint64 range (hash-style ids) instead of 1..n
 	ShortElection                                                                bool
@@ -177,6 +178,7 @@ type Gen struct {
 	// dominated by membership changes, some by compaction and snapshots, some
 	// by elections, ...
 	mulClient, mulFault, mulVirtual []float64
+	ssWeights                       []float64 // E4: append, install snapshot, create snapshot, compact, query
 }
 
 func pick(rng *rand.Rand, ws []float64) int {
@@ -285,6 +287,13 @@ func DrawConfig(rng *rand.Rand, p Profile, runSeed uint64) RunConfig {
 	}
 	rc.SplitSnapshot = chance(rng, p.PSplitSnapshot)
 	rc.NodeAPI = chance(rng, p.PNodeAPI)
+	if p.StoreSim {
+		rc.Nodes = []NodeCfg{rc.Nodes[0]}
+		rc.Voters, rc.Learners = []uint64{rc.Nodes[0].ID}, nil
+		rc.Bootstrap, rc.NodeAPI, rc.StoreSim = false, false, true
+		rc.BaseIndex = uint64(1 + rng.IntN(9))
+		return rc
+	}
 	if p.Follower {
 		// one real node (id 1, a learner), three or five abstract voters
 		real := rc.Nodes[0]
@@ -328,6 +337,17 @@ func NewGen(runSeed uint64, p Profile, opt Options) *Gen {
 	g := &Gen{rng: rng, p: p, gn: map[uint64]*genNode{}, removed: map[uint64]bool{}, lastCtx: map[uint64]int{}}
 	g.c = NewCluster(rc, opt)
 	g.maxActions = p.MinActions + rng.IntN(p.MaxActions-p.MinActions+1)
+	if rc.StoreSim {
+		// short runs, many of them; the mix of the parties varies per run
+		g.maxActions = 5 + rng.IntN(60)
+		g.ssWeights = []float64{6, 1.5, 1.5, 1.5, 1}
+		for i := range g.ssWeights {
+			if chance(rng, 0.35) {
+				g.ssWeights[i] *= []float64{0.2, 0.5, 2, 4}[rng.IntN(4)]
+			}
+		}
+		return g
+	}
 	g.faultFree = chance(rng, p.PFaultFree)
 	if !g.faultFree && chance(rng, p.PSingleFault) {
 		g.onlyFault = []string{"crash", "partition", "drop", "dup", "clock", "slow"}[rng.IntN(6)]
@@ -416,6 +436,12 @@ func (g *Gen) do(a Action) bool { return g.c.Do(a) }
 // RunChaos runs the fault-injecting phase.
 func (g *Gen) RunChaos() {
 	c := g.c
+	if c.ss != nil {
+		for c.viol == nil && c.stats.Actions < g.maxActions {
+			g.storeOp()
+		}
+		return
+	}
 	for c.viol == nil && c.stats.Actions < g.maxActions && g.h.Len() > 0 {
 		e := heap.Pop(&g.h).(*event)
 		if e.at > g.now {
